@@ -3,6 +3,8 @@
 extern crate alloc;
 
 pub mod transcript;
+#[cfg(swiftness_verif)]
+pub mod verif;
 
 #[cfg(test)]
 pub mod tests;
